@@ -135,6 +135,59 @@ func runC05(c *Ctx) {
 		c.Count("pool:" + p.kind)
 	}
 	runC05Codes(c, input)
+	// truncations of one value: the same date-time written to two different precisions has all shared components equal,
+	// so `=`, `!=`, `<`, `<=`, `>`, `>=` are all empty; written twice to the same precision it is equal to itself — for
+	// every precision, with and without an offset, for Date, DateTime and Time
+	{
+		type form struct {
+			text string
+			prec int
+		}
+		mk := func(date, tm, off string) []form {
+			var out []form
+			// (the date-level forms carry no offset: they are truncations of the value only when it is written in UTC)
+			if date != "" && (off == "" || off == "Z") {
+				out = append(out, form{"@" + date[:4] + tm0(tm, "T"), 0}, form{"@" + date[:7] + tm0(tm, "T"), 1}, form{"@" + date + tm0(tm, "T"), 2})
+			}
+			if tm != "" {
+				pre := "@T"
+				if date != "" {
+					pre = "@" + date + "T"
+				}
+				out = append(out, form{pre + tm[:2] + off, 3}, form{pre + tm[:5] + off, 4}, form{pre + tm[:8] + off, 5}, form{pre + tm + off, 6})
+			}
+			return out
+		}
+		var groups [][]form
+		// (whole-hour offsets: an hour-precision value at a half-hour offset has no hour of its own in UTC, where the
+		// implementation — like the model — compares)
+		for _, off := range []string{"", "Z", "+02:00", "-11:00"} {
+			groups = append(groups, mk("2020-03-09", "10:30:59.123", off))
+		}
+		groups = append(groups, mk("2020-03-09", "", ""), mk("", "10:30:59.123", ""), mk("1999-12-31", "23:59:59.999", "Z"), mk("2024-02-29", "00:00:00.000", "+14:00"))
+		for _, g := range groups {
+			for _, a := range g {
+				for _, b := range g {
+					for _, op := range []string{"=", "!=", "<", "<=", ">", ">="} {
+						want := "ok:[]"
+						if a.prec == b.prec || (a.prec >= 5 && b.prec >= 5) {
+							// the same text (seconds and milliseconds are one precision: the fraction belongs to the seconds)
+							if a.prec == b.prec {
+								want = map[string]string{"=": "ok:[B:true]", "!=": "ok:[B:false]", "<": "ok:[B:false]", "<=": "ok:[B:true]", ">": "ok:[B:false]", ">=": "ok:[B:true]"}[op]
+							} else {
+								continue
+							}
+						}
+						src := a.text + " " + op + " " + b.text
+						o := compileEval(src, input)
+						got := canonOutcome(o, nil)
+						c.Observe("truncation "+src, true)
+						c.Law(got == want, "C05/precision-truncation", "a value written to two different precisions compares as empty with itself, written twice to one precision as equal", src, got+" want "+want)
+					}
+				}
+			}
+		}
+	}
 	// a FHIR primitive element denotes the value of its JSON text: compared with the literal of that
 	// text it is equal (and neither less nor greater)
 	elemLiteral := map[string]string{
@@ -397,4 +450,13 @@ func runC05Codes(c *Ctx, input []fhir.Resource) {
 		}
 	}
 	c.Observe(fmt.Sprintf("enumerated codes compared with their literal: %d values of %d code types", n, len(codeTypes)), true)
+}
+
+// tm0: the partial-dateTime marker — a date written without a time is a Date; with a time part present in the group the
+// date forms are written as DateTimes ("@2020T") so that the whole group is of one type.
+func tm0(tm, marker string) string {
+	if tm == "" {
+		return ""
+	}
+	return marker
 }
